@@ -205,6 +205,12 @@ class PureEval:
 			for k in reversed(range(len(obj))):
 				r = obj[k] if r is None else ite_values(idx.term == k, obj[k], r)
 			return r
+		if isinstance(obj, dict) and not obj:
+			# no key exists: the value is arbitrary (an obligation about it is proved for every value)
+			return SInt(z3.Int(fresh_name('nokey')))
+		from .interp import SDict
+		if isinstance(obj, SDict):
+			return obj.get(idx)
 		h = self.eng.lib.get('pure_index:' + type(obj).__name__)
 		if h is not None:
 			return h(self, obj, idx)
